@@ -72,6 +72,19 @@ std::ostream& operator <<(std::ostream& out, Lit l); // MB: Feel free to find a 
 //=================================================================================================
 // Solver -- the main class:
 
+#ifdef OPENSMT_VERIF
+// verification hook (C25): makes the moment at which a stop request becomes visible deterministic.
+// Per thread: okContinue() polls done so far; if stopAtPoll >= 0 the polling thread itself raises the
+// solver's stop flag (or the global one) when it is about to perform that poll.
+#define OPENSMT_VERIF_STOP_COUNTER 1
+struct VerifStopCounter {
+    unsigned long polls = 0;
+    long stopAtPoll = -1;
+    bool global = false;
+};
+extern thread_local VerifStopCounter verifStopCounter;
+#endif
+
 class CoreSMTSolver
 {
     friend class LookaheadScoreClassic;
